@@ -168,6 +168,29 @@ platform (whatever `os.linesep` is) -/
 theorem write_preserves_bytes (linesep s : Str) : xlate Gen.C07.applyNewline linesep s = s :=
   xlate_id linesep s
 
+/-- the phase order of `Refactoring.apply` found in the source is one of the two the model
+knows: writes then renames, with or without the refusal for a path-less `Script` in front -/
+theorem apply_order_known :
+    Gen.C07.applyOrder = ["writes", "renames"] ∨
+    Gen.C07.applyOrder = ["refuse-pathless", "writes", "renames"] := by decide
+
+/-- the refusal in front does nothing for a result whose changes all have paths -/
+theorem apply_order_canon (ls : Str) (r : Refactoring) (fs : FS)
+    (hall : ∀ c ∈ r.changes, c.path ≠ none) :
+    step Gen.C07.applyNewline ls Gen.C07.applyOrder r .apply fs
+      = step Gen.C07.applyNewline ls ["writes", "renames"] r .apply fs := by
+  rcases apply_order_known with h | h <;> rw [h]
+  have hany : r.changes.any (fun c => c.path.isNone) = false := by
+    rw [List.any_eq_false]
+    intro c hc
+    have := hall c hc
+    cases hp : c.path with
+    | none => exact absurd hp this
+    | some p => simp
+  show applyPhases _ _ _ ("refuse-pathless" :: ["writes", "renames"]) _ = _
+  rw [applyPhases]
+  simp [hany, step]
+
 /-- `Refactoring.apply` with the phase order and `newline=` found in the source: when every
 change has a path (distinct dict keys), apply succeeds, every changed path holds exactly
 `get_new_code()`, every other path is untouched — and then the renames are performed. -/
@@ -180,7 +203,8 @@ theorem apply_spec (ls : Str) (r : Refactoring) (fs : FS)
       (∀ q, (∀ c ∈ r.changes, c.path ≠ some q) → mid q = fs q) := by
   refine ⟨(applyWrites (some "") ls r.changes fs).fs, ?_, ?_, ?_⟩
   · have he := applyWrites_err_none (some "") ls r.changes fs hall
-    simp only [step, Gen.C07.applyOrder, Gen.C07.applyNewline, applyPhases, if_true]
+    rw [apply_order_canon ls r fs hall]
+    simp only [step, Gen.C07.applyNewline, applyPhases, if_true]
     cases hw : applyWrites (some "") ls r.changes fs with
     | mk fs' err =>
       rw [hw] at he; simp only at he; subst he
@@ -214,16 +238,55 @@ theorem rename_spec (fs : FS) (old new : Path) :
   · intro q h1 h2; simp [rename, h1, h2]
   · intro rest; simp [rename]
 
+/-- with the refusal in front of the loops (`"refuse-pathless"` first in the phase order, the
+proposed fix), an `apply()` refused because a change has no path has written nothing -/
+theorem apply_refusal_writes_nothing_partial (nl : Option String) (ls : Str) (rest : List String)
+    (r : Refactoring) (fs : FS) (h : ∃ c ∈ r.changes, c.path = none) :
+    step nl ls ("refuse-pathless" :: rest) r .apply fs = ⟨fs, some .refactoringError⟩ := by
+  have hany : r.changes.any (fun c => c.path.isNone) = true := by
+    obtain ⟨c, hc, hn⟩ := h
+    exact List.any_eq_true.mpr ⟨c, hc, by simp [hn]⟩
+  show applyPhases _ _ _ ("refuse-pathless" :: rest) _ = _
+  rw [applyPhases]
+  simp [hany]
+
+/-- FULL statement "a refused apply() leaves the file system as it was" is false for the phase
+order `["writes", "renames"]` (the source as it is: `ChangedFile.apply` of the entry without a
+path raises only when the loop gets to it): every change in front of the path-less one has been
+written. Reproduced on the real code (known finding C07-pathless-apply-half-applied). -/
+theorem apply_refusal_half_applied_witness (ls : Str) (c : FileChange) (p : Path)
+    (cs : List FileChange) (rs : List (Path × Path)) (fs : FS)
+    (hp : c.path = some p) (hnone : ∃ d ∈ cs, d.path = none) (hnd : ∀ d ∈ cs, d.path ≠ some p) :
+    (step (some "") ls ["writes", "renames"] ⟨c :: cs, rs⟩ .apply fs).err = some .refactoringError ∧
+    (step (some "") ls ["writes", "renames"] ⟨c :: cs, rs⟩ .apply fs).fs p = some (newCode c) := by
+  have he := applyWrites_pathless (some "") ls cs (write fs p (xlate (some "") ls (newCode c))) hnone
+  have hu := applyWrites_untouched (some "") ls p cs (write fs p (xlate (some "") ls (newCode c))) hnd
+  have hw : applyWrites (some "") ls (c :: cs) fs
+      = applyWrites (some "") ls cs (write fs p (xlate (some "") ls (newCode c))) := by
+    rw [applyWrites]; simp [hp]
+  simp only [step, applyPhases, if_true, hw]
+  cases hw2 : applyWrites (some "") ls cs (write fs p (xlate (some "") ls (newCode c))) with
+  | mk fs' err =>
+    rw [hw2] at he hu; simp only at he hu; subst he
+    refine ⟨rfl, ?_⟩
+    show fs' p = some (newCode c)
+    rw [hu]; simp [write, xlate_id]
+
+example : ∃ d ∈ [(⟨none, .leaf 0 "name" [] ['x'], []⟩ : FileChange)], d.path = none :=
+  ⟨⟨none, .leaf 0 "name" [] ['x'], []⟩, List.mem_singleton.mpr rfl, rfl⟩
+
 /-- a `Script` without path: `apply()` refuses with `RefactoringError` -/
 theorem apply_refuses_pathless (ls : Str) (r : Refactoring) (fs : FS)
     (h : ∃ c ∈ r.changes, c.path = none) :
     (step Gen.C07.applyNewline ls Gen.C07.applyOrder r .apply fs).err = some .refactoringError := by
-  have he := applyWrites_pathless (some "") ls r.changes fs h
-  simp only [step, Gen.C07.applyOrder, Gen.C07.applyNewline, applyPhases, if_true]
-  cases hw : applyWrites (some "") ls r.changes fs with
-  | mk fs' err =>
-    rw [hw] at he; simp only at he; subst he
-    rfl
+  rcases apply_order_known with ho | ho <;> rw [ho]
+  · have he := applyWrites_pathless (some "") ls r.changes fs h
+    simp only [step, Gen.C07.applyNewline, applyPhases, if_true]
+    cases hw : applyWrites (some "") ls r.changes fs with
+    | mk fs' err =>
+      rw [hw] at he; simp only at he; subst he
+      rfl
+  · rw [apply_refusal_writes_nothing_partial _ ls _ r fs h]
 
 /-! ## the name a changed file is announced under (`+++` header) -/
 
@@ -262,6 +325,42 @@ theorem to_path_string_prefix_witness :
 
 theorem to_path_mode_known : Gen.C07.toPathMode ∈ ["string-prefix", "components"] := by decide
 
+/-! ### `calculate_to_path` on the key of a `Script` without a path (`None`) -/
+
+/-- the key `None` stays `None`, whatever file renames the refactoring carries: for an unsaved
+buffer `get_changed_files()` - and `get_diff()`, `apply()`, which call it - does not run into
+`None.relative_to(..)`.  (`toPathNoneGuard` is read from the source statement by statement.) -/
+theorem to_path_none_stays_none (rs : List (Path × Path)) :
+    calcToPath Gen.C07.toPathNoneGuard Gen.C07.toPathLoop Gen.C07.toPathMode rs none = .ok none := by
+  simp [calcToPath, Gen.C07.toPathNoneGuard]
+
+/-- `calculate_to_path` answers for every key of `file_to_node_changes`, and only `None` gives `None` -/
+theorem to_path_total (rs : List (Path × Path)) (p : Option Path) :
+    ∃ q, calcToPath Gen.C07.toPathNoneGuard Gen.C07.toPathLoop Gen.C07.toPathMode rs p = .ok q ∧
+      (p = none ↔ q = none) := by
+  cases p with
+  | none => exact ⟨none, to_path_none_stays_none rs, by simp⟩
+  | some p => exact ⟨_, rfl, by simp⟩
+
+example : calcToPath true "fold" "components"
+    [(["/", "p", "modx.py"], ["/", "p", "mody.py"])] (some ["/", "p", "modx.py"])
+    = .ok (some ["/", "p", "mody.py"]) := by simp [calcToPath, toPath, renamedPath]
+
+/-- counter-witness for the helper without the guard: one file rename is enough -/
+theorem to_path_unguarded_witness :
+    calcToPath false "first" "components" [(["/", "p", "modx.py"], ["/", "p", "mody.py"])] none
+      = .error .attributeError ∧
+    calcToPath false "fold" "components" [] none = .ok none := by
+  constructor <;> rfl
+
+theorem to_path_loop_known : Gen.C07.toPathLoop ∈ ["fold", "first"] := by decide
+
+/-- for one rename, returning at the first match and going on over all renames are the same:
+the component-wise new name -/
+theorem to_path_some_single (g : Bool) (loop : String) (o n p : Path) :
+    calcToPath g loop "components" [(o, n)] (some p) = .ok (some (renamedPath o n p)) := by
+  by_cases h : loop = "first" <;> simp [calcToPath, h, toPathFirst, toPath, renamedPath]
+
 /-! ## the names in the diff: `--- a` / `+++ b` headers and the `rename from / rename to` lines -/
 
 /-- the `---` header of a file section is `_from_path` (the key of `get_changed_files()`),
@@ -285,6 +384,16 @@ theorem diff_header_to (project : Path) (fromP toP : Option Path) :
   | some p =>
     by_cases h : project <+: p <;>
       simp [headerPath, Gen.C07.diffToHeader, cfAttr, displayPath, displayParts, strOpt, h]
+
+/-- the section of a buffer without a path names no file: both headers are the empty name,
+also when the refactoring carries file renames -/
+theorem pathless_section_names_nothing (project : Path) (rs : List (Path × Path)) :
+    ∃ toP, calcToPath Gen.C07.toPathNoneGuard Gen.C07.toPathLoop Gen.C07.toPathMode rs none = .ok toP ∧
+      headerPath Gen.C07.diffFromHeader project none toP = .ok [] ∧
+      headerPath Gen.C07.diffToHeader project none toP = .ok [] := by
+  refine ⟨none, to_path_none_stays_none rs, ?_, ?_⟩
+  · rw [diff_header_from]; rfl
+  · rw [diff_header_to]; rfl
 
 /-- non-vacuity: a file outside the project that is moved; the two headers differ -/
 example : headerPath Gen.C07.diffToHeader ["/", "t", "proj"]
